@@ -34,7 +34,8 @@ def hasInfix (pat : Bytes) : Bytes → Bool
   | c :: r => pat.isPrefixOf (c :: r) || hasInfix pat r
 
 /-- what precedes a token on its own line / in the file (letters):
-    E a backslash (an escape inside a short string) earlier on the line
+    (E — a backslash earlier on the line — was a class until the lexer was repaired to advance by the
+      source text of a string instead of its value)
     L a long bracket ([[ or [=) earlier on the line or a multi-line token ends on this line
     A a character outside the BMP (4-byte UTF-8) earlier on the line
     N another non-ASCII byte earlier on the line (2-byte sequences are treated as GBK; 3-byte ones
@@ -46,7 +47,6 @@ def lineClasses (doc : Bytes) (off : Nat) : String :=
   let ls := lineStartOff doc off
   let pre := (doc.take off).drop ls
   let before := doc.take off
-  (if pre.contains 92 then "E" else "") ++
   (if hasInfix [91, 91] pre || hasInfix [91, 61] pre || hasInfix [93, 93] pre || hasInfix [61, 93] pre then "L" else "") ++
   (if pre.any (· ≥ 0xF0) then "A" else "") ++
   (if pre.any (fun b => b ≥ 0x80 && b < 0xF0) then "N" else "") ++
